@@ -376,6 +376,92 @@ Fixpoint history_ck (sf : bool) (c : scache) (g : C17.pattern) (calls : list (li
 Definition empty_env : C17.env := C17.mkEnv [104; 116; 116; 112] None [115] [56; 48] [].
 Definition no_overrides : C17.overrides := C17.mkOv None None None None None None.
 
+(* ================================================================== histories on ONE request object *)
+(* A request lives on while its SCRIPT_NAME / PATH_INFO change (request.script_name = ..., a write to
+   environ['SCRIPT_NAME'], webob's path_info_pop moving a segment from PATH_INFO to SCRIPT_NAME).  URL
+   generation reads the environ at the time of the call.  Whether any function on the way writes to
+   the request is a regenerated fact ([request_state_written]); the step function is parametric in
+   it ([mf]): the stateful variant modelled is "the quoted script name is kept on the request after
+   its first use". *)
+Record rstate := mkRS { rs_script : text; rs_pinfo : text; rs_memo : option text }.
+Inductive rstep :=
+| RSet (s : text)                                            (* SCRIPT_NAME := s *)
+| RPop                                                       (* request.path_info_pop() *)
+| RGen (els : list C17.pval) (o : C17.overrides) (kw : list (text * C17.kwval)).   (* route_url, then route_path *)
+
+Fixpoint lstrip_count (s : text) (acc : text) : text * text :=      (* leading slashes, rest *)
+  match s with c :: r => if c =? 47 then lstrip_count r (acc ++ [47]) else (acc, s) | [] => (acc, []) end.
+Fixpoint upto_slash (s : text) : text * text :=
+  match s with
+  | [] => ([], [])
+  | c :: r => if c =? 47 then ([], s) else let '(a, b) := upto_slash r in (c :: a, b)
+  end.
+(* webob BaseRequest.path_info_pop (no pattern), on the decoded texts *)
+Definition path_info_pop (script pinfo : text) : text * text :=
+  match pinfo with
+  | [] => (script, pinfo)
+  | _ => let '(slashes, rest) := lstrip_count pinfo [] in
+         let '(seg, rest') := upto_slash rest in
+         (script ++ slashes ++ seg, rest')
+  end.
+
+Definition env_with (e : C17.env) (s : text) : C17.env :=
+  C17.mkEnv (C17.e_scheme e) (C17.e_http_host e) (C17.e_server_name e) (C17.e_server_port e) s.
+
+Definition gen_step (mf : bool) (e : C17.env) (rs : list (text * C17.pattern)) (target : text) (st : rstate)
+           (els : list C17.pval) (o : C17.overrides) (kw : list (text * C17.kwval))
+  : (C17.res text * C17.res text) * rstate :=
+  let cur := env_with e (rs_script st) in
+  let u := C17.route_url [] cur rs target els o kw in
+  let s_eff := if mf then match rs_memo st with Some s0 => s0 | None => rs_script st end else rs_script st in
+  let p := C17.route_path [] (env_with e s_eff) rs target els o kw in
+  let memo' := if mf && forallb valid_scalar s_eff then Some s_eff else rs_memo st in
+  ((u, p), mkRS (rs_script st) (rs_pinfo st) memo').
+
+(* outputs of the generation steps (with the SCRIPT_NAME current at that step), in order *)
+Fixpoint run_req (mf : bool) (e : C17.env) (rs : list (text * C17.pattern)) (target : text) (st : rstate)
+         (steps : list rstep) : list (text * (C17.res text * C17.res text)) :=
+  match steps with
+  | [] => []
+  | RSet s :: r => run_req mf e rs target (mkRS s (rs_pinfo st) (rs_memo st)) r
+  | RPop :: r => let '(s', p') := path_info_pop (rs_script st) (rs_pinfo st) in
+                 run_req mf e rs target (mkRS s' p' (rs_memo st)) r
+  | RGen els o kw :: r =>
+      let '(up, st') := gen_step mf e rs target st els o kw in
+      (rs_script st, up) :: run_req mf e rs target st' r
+  end.
+
+(* declarative: every generation step is route_url / route_path of the environ as it is then *)
+Fixpoint spec_req (e : C17.env) (rs : list (text * C17.pattern)) (target : text) (script pinfo : text)
+         (steps : list rstep) : list (text * (C17.res text * C17.res text)) :=
+  match steps with
+  | [] => []
+  | RSet s :: r => spec_req e rs target s pinfo r
+  | RPop :: r => let '(s', p') := path_info_pop script pinfo in spec_req e rs target s' p' r
+  | RGen els o kw :: r =>
+      (script, (C17.route_url [] (env_with e script) rs target els o kw,
+                C17.route_path [] (env_with e script) rs target els o kw))
+      :: spec_req e rs target script pinfo r
+  end.
+
+(* the SCRIPT_NAME current at each generation step (for the per-step specification) *)
+Fixpoint scripts_at (script pinfo : text) (steps : list rstep) : list (text * rstep) :=
+  match steps with
+  | [] => []
+  | RSet s :: r => scripts_at s pinfo r
+  | RPop :: r => let '(s', p') := path_info_pop script pinfo in scripts_at s' p' r
+  | g :: r => (script, g) :: scripts_at script pinfo r
+  end.
+
+Definition get_rstep (v : val) : option rstep :=
+  match v with
+  | VL [VI 0%Z; VT s] => Some (RSet s)
+  | VL [VI 1%Z] => Some RPop
+  | VL [VI 2%Z; els; ov; kw] =>
+      olet els := C17.get_pvals els in olet ov := C17.get_ov ov in olet kw := C17.get_kw kw in Some (RGen els ov kw)
+  | _ => None
+  end.
+
 (* case   = [[wordchars; digitchars]; [[name; pattern] ...]; target; env; elements; overrides; kw]
             (env / overrides / elements / kw in C17's wire format)
    answer = [[statuses; route_url; route_path; way back of the url form]; spec] *)
@@ -399,6 +485,29 @@ Definition run_C06 (v : val) : val :=
         Some (VL [VL [VL (map C01.put_status sts); C17.put_res u; C17.put_res p;
                       route_back orc m tp (C17.e_script e) u];
                   put_spec_out (spec_route orc ds target e els ov kw)])
+    | VL [VI 2%Z; o; ds; VT target; e; VT pinfo; steps] =>
+        (* history on one request object: [[statuses; [[route_url; route_path; way back] per generation step]]; [spec per step]] *)
+        olet orc := C01.get_oracle o in
+        olet ds := get_list_of get_decl2 ds in
+        olet e := C17.get_env e in
+        olet steps := get_list_of get_rstep steps in
+        let '(m, sts) := C01.connect_all orc C01.empty_mapper 0 (map c01_decl ds) in
+        let sts := if gen_sources_ok then sts else map (fun _ => C01.FactsDrift) sts in
+        let rs := gen_routes orc ds in
+        let tp := match find_src target ds with
+                  | Some src => match parse orc src with C01.Ok p => Some p | _ => None end
+                  | None => None
+                  end in
+        let outs := run_req request_state_written e rs target (mkRS (C17.e_script e) pinfo None) steps in
+        Some (VL [VL [VL (map C01.put_status sts);
+                      VL (map (fun x : text * (C17.res text * C17.res text) =>
+                                 VL [C17.put_res (fst (snd x)); C17.put_res (snd (snd x));
+                                     route_back orc m tp (fst x) (fst (snd x))]) outs)];
+                  VL (map (fun x : text * rstep =>
+                             match snd x with
+                             | RGen els ov kw => put_spec_out (spec_route orc ds target (env_with e (fst x)) els ov kw)
+                             | _ => VL []
+                             end) (scripts_at (C17.e_script e) pinfo steps))])
     | VL [VI 1%Z; o; d; calls] =>
         (* history of Route.generate calls in one process: [[status; [[path; own match] ...]]; [spec per call]] *)
         olet orc := C01.get_oracle o in
